@@ -15,7 +15,10 @@ prop("C15",
                 "pod-batch-after-failed-policy-sync); D21 fixed (`full_sync_counter_d21` is about the pre-fix variant). "
                 "All four clauses are also monitored on the real dumps of generated histories (restart / periodic resync "
                 "/ events / UPDATE transitions / injected ipset-create failures per set position), clause 4 at "
-                "submission time, including flow verdicts vs a from-scratch sync.",
+                "submission time, including flow verdicts vs a from-scratch sync. DRIFT histories (systematic + generated): the same "
+                "process syncs the same desired state twice while the kernel moved away in between with a net-zero change of "
+                "the desired entries (pod label / namespace label / pod address round trips delivered as pod events, external "
+                "add / del / emptying of GLX sets, junk rules in GLX-PLCY / GLX-POD chains); the second sync must repair it.",
      level_note="the sync model (`syncRules`/`syncPods`/`fullSync` over strict primitive semantics at the level of "
                 "structured rules) is hand-written; every sync step of the real code over harness/nf is compared with it "
                 "starting from the REAL prior dump (post-state and failure classes must be equal); the strict iptables / "
